@@ -41,10 +41,12 @@ def run(tier, replay=None):
             ck.coq_ok, ck.coq_error = True, ""
         return None
 
-    mism = {"inherit": None, "shape": None, "strip": None, "exchange": None}
+    mism = {"inherit": None, "ins": None, "shape": None, "strip": None, "exchange": None}
     if ck.coq_ok:
         hdr = "From Security Require Import Model Run.\nOpen Scope string_scope.\n"
         mism["inherit"] = evaluate("inherit", hdr, "inherit_case", "inherit_mismatches")
+        if ck.coq_ok:
+            mism["ins"] = evaluate("ins", hdr, "nat * locs * list requirement * list (list (string * string))", "ins_mismatches")
         hdr2 = hdr + "\n".join(lines("defs.v")) + "\n"
         if ck.coq_ok:
             mism["shape"] = evaluate("shape", hdr2, "nat * list requirement * list stmt", "shape_mismatches", shards=2)
@@ -69,12 +71,14 @@ def run(tier, replay=None):
         elif mism["strip"]:
             first = {"decoder_strip_line": lines("cases_strip.txt")[mism["strip"][0]][:3000],
                      "parse_error": res.get("extra", {}).get("last_strip_error")}
+        elif mism["ins"]:
+            first = {"scheme_location_line": lines("cases_ins.txt")[mism["ins"][0]][:3000]}
         elif mism["inherit"]:
             first = {"placement_line": lines("cases_inherit.txt")[mism["inherit"][0]][:3000]}
-        ck.unproved("correspondence Security model vs goa broke: %d placement(s) (effective_reqs/data_reqs vs expr + service data), "
+        ck.unproved("correspondence Security model vs goa broke: %d endpoint location table(s) (endpoint_ins vs HTTPEndpointExpr.Requirements), %d placement(s) (effective_reqs/data_reqs vs expr + service data), "
                     "%d endpoint shape(s) (gen_endpoint vs generated endpoints.go), %d request decoder(s) (strip_fields vs generated encode_decode.go), "
                     "%d exchange(s) (run vs recorded callbacks); the property's own laws held on every case explored"
-                    % (len(mism["inherit"] or []), len(mism["shape"] or []), len(mism["strip"] or []), len(mism["exchange"] or [])),
+                    % (len(mism["ins"] or []), len(mism["inherit"] or []), len(mism["shape"] or []), len(mism["strip"] or []), len(mism["exchange"] or [])),
                     {"broken": "correspondence", "first_disagreeing_case": first,
                      "mismatching_placements": (mism["inherit"] or [])[:50], "mismatching_shapes": (mism["shape"] or [])[:50], "mismatching_decoders": (mism["strip"] or [])[:50],
                      "mismatching_exchanges": (mism["exchange"] or [])[:50]})
